@@ -111,9 +111,12 @@ func runProxy(commandPrefix string, cmdBuilder func(temp string, needBash bool) 
 				exports = append(exports, fmt.Sprintf("export %s=%s", pair[0], escapeSingleQuote(pair[1])))
 			} else if strings.HasPrefix(pair[0], "BASH_FUNC_") && strings.HasSuffix(pair[0], "%%") {
 				name := pair[0][10 : len(pair[0])-2]
-				exports = append(exports, name+pair[1])
-				exports = append(exports, "export -f "+name)
-				needBash = true
+				// Like bash itself, only take what looks like an exported function
+				if validIdentifier.MatchString(name) && strings.HasPrefix(pair[1], "() {") {
+					exports = append(exports, name+pair[1])
+					exports = append(exports, "export -f "+name)
+					needBash = true
+				}
 			}
 		}
 	}
